@@ -20,6 +20,11 @@ func genC26(r *Rand, idx int, tier string) Case {
 	cfg := genCfg(r)
 	cfg.MaxHand = 0
 	nent := PickInt(r, 0, 1, 2, 3, 5, 8, 13, 20, 40)
+	if tier == "quick" {
+		// every step carries the backend dump: keep the quick tier's terms small (the 40-entry directories with
+		// one-entry pages stay in the thorough tier and in stream C26x)
+		nent = PickInt(r, 0, 1, 2, 3, 5, 8, 13, 20)
+	}
 	lens := []int{1, 2, 3, 4, 5, 7, 8, 63, 64, 254, 255}
 	var names []string
 	for i := 0; i < nent; i++ {
@@ -56,6 +61,9 @@ func genC26(r *Rand, idx int, tier string) Case {
 	}
 	d := *st.Obs.FH
 	ntrav := 3 + r.Intn(4)
+	if tier == "quick" {
+		ntrav = 2 + r.Intn(3)
+	}
 	for t := 0; t < ntrav; t++ {
 		plus := r.Bool()
 		// limits hitting every size residue: header is 100 bytes, entries 24+pad(len) (+104 for plus), trailer 8
